@@ -122,7 +122,8 @@ pub fn check_program_range(ctx: &mut Ctx, id: &str, src: &str, c: &Cfg, family: 
             }
         }
     }
-    if range.is_some() {
+    if range.is_some() || c.sort_requires {
+        // (with sorting on, defusing the directives changes which groups are frozen)
         return;
     }
     // (2) everything else formatted as without the directives
@@ -338,7 +339,7 @@ fn check_table_field(ctx: &mut Ctx, id: &str, src: &str, c: &Cfg) {
 }
 
 pub fn n_items(w: &W, ctx: &Ctx) -> usize {
-    let seeded = if ctx.quick() { 500 } else { 40000 };
+    let seeded = if ctx.quick() { 1500 } else { 40000 };
     pinned_programs().len().div_ceil(16) + w.work.corpus.len() + seeded
 }
 
@@ -399,6 +400,27 @@ pub fn run_item(w: &W, ctx: &mut Ctx, mut i: usize) {
         return;
     }
     i -= w.work.corpus.len();
+    // seeded, one item in six: a require-heavy top level (the C12 generator places directives on
+    // members and on other statements) with require sorting on: what the model says is ignored
+    // stays verbatim and in order whatever the sorter does with its neighbours
+    if i % 6 == 5 {
+        let mut rng = Rng::derive(ctx.seed, 0xc08c12, i as u64);
+        let luau = rng.chance(1, 3);
+        let prog = crate::props::c12::program(&mut rng, luau);
+        if !prog.contains("stylua: ignore") {
+            ctx.count("req.no_directive");
+            return;
+        }
+        let syntax: &'static str = if luau { "Luau" } else { "Lua51" };
+        let mut c = Cfg::random(&mut rng, syntax, 40);
+        c.sort_requires = true;
+        if !fmt::parses(&prog, &c) {
+            return;
+        }
+        ctx.count("req.programs");
+        check_program_range(ctx, &format!("c08:req:{}:{i}", ctx.seed), &prog, &c, "req", None);
+        return;
+    }
     // seeded: a generated program with directives inserted before statements that start a line
     let mut rng = Rng::derive(ctx.seed, 0xc08, i as u64);
     let syntax = *rng.pick(&cfg::SYNTAXES);
